@@ -1369,11 +1369,15 @@ func (ex *Exec) wrapArith(st *State, site ssa.Instruction, t types.Type, r Term)
 }
 
 // fieldHeapsOfType lists the field heaps of in-repo struct types whose field type is t.
-func (ex *Exec) fieldHeapsOfType(t types.Type) []string {
+func (ex *Exec) fieldHeapsOfType(t types.Type) []string { return ex.w.fieldHeapsOfType(t) }
+
+// fieldHeapsOfType lists the field heaps of in-repo struct types whose field type is t: what a
+// store through a pointer of unknown origin to a t may overwrite.
+func (w *World) fieldHeapsOfType(t types.Type) []string {
 	key := typeString(t)
-	if ex.w.fieldHeaps == nil {
-		ex.w.fieldHeaps = map[string][]string{}
-		for _, pkg := range ex.w.prog.AllPackages() {
+	if w.fieldHeaps == nil {
+		w.fieldHeaps = map[string][]string{}
+		for _, pkg := range w.prog.AllPackages() {
 			if !strings.HasPrefix(pkg.Pkg.Path(), modPath) {
 				continue
 			}
@@ -1389,12 +1393,12 @@ func (ex *Exec) fieldHeapsOfType(t types.Type) []string {
 				}
 				for i := 0; i < st.NumFields(); i++ {
 					fk := typeString(st.Field(i).Type())
-					ex.w.fieldHeaps[fk] = append(ex.w.fieldHeaps[fk], "F$"+structKey(tn.Type())+"$"+st.Field(i).Name())
+					w.fieldHeaps[fk] = append(w.fieldHeaps[fk], "F$"+structKey(tn.Type())+"$"+st.Field(i).Name())
 				}
 			}
 		}
 	}
-	return ex.w.fieldHeaps[key]
+	return w.fieldHeaps[key]
 }
 
 func (ex *Exec) mayBeInterior(t types.Type) bool { return len(ex.fieldHeapsOfType(t)) > 0 }
